@@ -221,7 +221,20 @@ def check_sentence_lines(ctx: Ctx) -> None:
                f"written (diff locality); other uses: {bad}", where(lw, h))
         # merge statement guarded by the short-line test, and the pop paired with it
         merges = [n for n in body if n.kind == "stmt" and isinstance(n.ast, ast.AugAssign) and norm(n.ast.target) == f"{L}[-1]"]
-        pops = [n for n in body if any(isinstance(c.func, ast.Attribute) and c.func.attr == "pop" for c in flow.calls_in(n))]
+        def removals(x: Node) -> int:
+            """how many times the statement takes the first line off a list: X.pop(0), X = X[1:], del X[0]"""
+            k_ = sum(1 for c in flow.calls_in(x) if isinstance(c.func, ast.Attribute) and c.func.attr == "pop")
+            a_ = x.ast
+            if x.kind == "stmt" and isinstance(a_, ast.Assign) and len(a_.targets) == 1 and isinstance(a_.targets[0], ast.Name) and isinstance(a_.value, ast.Subscript) \
+                    and isinstance(a_.value.value, ast.Name) and a_.value.value.id == a_.targets[0].id and isinstance(a_.value.slice, ast.Slice) \
+                    and isinstance(a_.value.slice.lower, ast.Constant) and a_.value.slice.lower.value == 1 and a_.value.slice.upper is None and a_.value.slice.step is None:
+                k_ += 1
+            if x.kind == "stmt" and isinstance(a_, ast.Delete) and len(a_.targets) == 1 and isinstance(a_.targets[0], ast.Subscript) \
+                    and isinstance(a_.targets[0].slice, ast.Constant) and a_.targets[0].slice.value == 0:
+                k_ += 1
+            return k_
+
+        pops = [n for n in body if removals(n)]
         for mnode in merges:
             edges = must_edges(flow.cfg, h, mnode) or set()
             short = any(b.kind == "test" and lab == "T" and "min_line_len" in norm(b.ast) and f"{L}[-1]" in norm(b.ast) for b, lab in edges)
@@ -241,7 +254,7 @@ def check_sentence_lines(ctx: Ctx) -> None:
         bad_path = None
         for path in iteration_paths(flow, h):
             n_m = sum(1 for x in path if x in merges)
-            n_p = sum(sum(1 for c in flow.calls_in(x) if isinstance(c.func, ast.Attribute) and c.func.attr == "pop") for x in path)
+            n_p = sum(removals(x) for x in path)
             if n_m != n_p:
                 bad_path = path
                 break
@@ -1103,11 +1116,37 @@ def check_accounting(ctx: Ctx, markdown_only: bool = False) -> None:
         if alone:
             fits.append(n)
     for t in fits:
-        sl = prog.slice(wl, t.ast.left, t)
-        names = {x.id for x in ast.walk(t.ast.left) if isinstance(x, ast.Name)}
-        ok = {"current_width", "word_width", "space_width"} <= names or len(names) >= 3
+        # the left side, read through its temporaries, is a sum of exactly: the running column (a name carried around the
+        # word loop), the length of the current word (a one-argument call on the loop variable), and the separating space
+        # (1, or 1-if-the-line-is-non-empty-else-0)
+        ex = expand_expr(prog, wl, t.ast.left, t, strict=False)
+        terms_: list[ast.AST] = []
+
+        def flat_(e: ast.AST) -> None:
+            if isinstance(e, ast.BinOp) and isinstance(e.op, ast.Add):
+                flat_(e.left)
+                flat_(e.right)
+            else:
+                terms_.append(e)
+        flat_(ex)
+        heads_ = [h for h in flow.cfg.nodes if h.kind == "for" and t in flow.loop_body_nodes(h)]
+        head_ = min(heads_, key=lambda h: len(flow.loop_body_nodes(h))) if heads_ else None
+        loop_vars = {x.id for x in ast.walk(head_.ast.target) if isinstance(x, ast.Name)} if head_ is not None else set()
+        carried_ = flow.loop_carried(head_) if head_ is not None else set()
+        kinds_: list[str] = []
+        for tm in terms_:
+            if isinstance(tm, ast.Name) and tm.id in carried_:
+                kinds_.append("column")
+            elif isinstance(tm, ast.Call) and len(tm.args) == 1 and isinstance(tm.args[0], ast.Name) and tm.args[0].id in loop_vars:
+                kinds_.append("word")
+            elif (isinstance(tm, ast.Constant) and tm.value == 1) or (isinstance(tm, ast.IfExp) and isinstance(tm.body, ast.Constant) and isinstance(tm.orelse, ast.Constant)
+                                                                        and {tm.body.value, tm.orelse.value} == {0, 1}):
+                kinds_.append("space")
+            else:
+                kinds_.append("?" + norm(tm)[:30])
+        ok = sorted(kinds_) == ["column", "space", "word"]
         ctx.ob("R-ACCT", f"{wl.qual} :: fit test", ok and norm(t.ast.comparators[0]) == "width",
-               f"a word fits if column + word + separating space <= width; the test reads {sorted(names)} against `{norm(t.ast.comparators[0])}`", where(wl, t))
+               f"a word fits if column + word + separating space <= width; the test adds up {sorted(kinds_)} (`{norm(ex)[:80]}`) against `{norm(t.ast.comparators[0])}`", where(wl, t))
     # the running column: the variable of the fit test that is re-assigned inside the word loop
     wvars: set[str] = set()
     for t in fits:
